@@ -121,6 +121,11 @@ RoundTrip(r) ==
 
 ReadOnly(r) ==
     LET v == IF r.ev = "Lookup" THEN ReadOK(st, r)
+             ELSE IF r.ev = "Load"
+                  THEN \* C19: a store that satisfies the store invariants, or an error: never a panic, abort, allocation failure or hang
+                       LET okOut == r.outcome \in {"ok", "err"}
+                           okInv == r.outcome # "ok" \/ SafeStateOK(CanonState(r.api.loaded))
+                       IN [ok |-> okOut /\ okInv, expected |-> [load |-> TRUE, outcome |-> okOut, invariants |-> okInv]]
              ELSE IF r.ev = "ConcRun"
                   THEN [ok |-> ConcConforms(r) /\ ConcSequential(r),
                         expected |-> [conforms |-> ConcConforms(r), sequential |-> ConcSequential(r), threads |-> ConcExpected(r.a),
